@@ -93,3 +93,43 @@ PROPS['C12'] = dict(
          'distinct = distinct inputs, non-trivial = non-empty list or explicit n / at least one call after NewBuilder',
     assumptions=TRUST + ['position lists are ascending and non-negative, sizes are non-negative, OfMany\'s shifted concatenation is ascending (Of\'s contract)'],
 )
+
+TBM = dict(module='Trace_Bmtree', cfg='Trace_Bmtree.cfg')
+PROPS['C03'] = dict(
+    trace=TBM, builds=['plain', 'debug'], mc=dict(quick=[], thorough=[]), need_kinds=['p2i'],
+    rule='a case is one level mask with a list of nodes (l, v): ALL masks of height <= 7 (thorough <= 10) with ALL their nodes; for heights 1..30 the full tree, the leaf-only tree, '
+         'masks with one missing / one present level, sparse and random masks, with the root, the all-zero and all-one path of every length and 60 random nodes; '
+         'PathToIndexLoose on every node and PathToIndex on every node of a stored level, in the release build and in the -tags debug build (a contract panic is an abnormal observation), '
+         'judged against the closed pre-order level sum Bmtree!Idx2; distinct = distinct (mask, nodes), non-trivial = height >= 1',
+    assumptions=TRUST + ['path words are built with the library\'s own NewPath (C10 binds NewPath)'],
+)
+PROPS['C04'] = dict(
+    trace=TBM, mc=dict(quick=[], thorough=[]), need_kinds=['allpaths', 'decode', 'encdec'],
+    rule='allpaths: every mask of height <= 4 (thorough <= 6) x from/to drawn from every path word, word+-1 in either half and extreme words (incl. from > to), '
+         'tall trees (height 6..30) with windows of <= 300 full-length values whose lower halves are real masks, masks+-1, non-contiguous or noise; '
+         'decode: masks of height <= 10/12 with bitmaps shorter, exact and longer than bitmapSize bits incl. bit 63 of the last word; encdec: PathToIndex-encode a node set then Decode; '
+         'judged as: every returned path is a stored node inside the window / with its index bit set, strictly ascending, and the count equals the number of such nodes; '
+         'distinct = distinct inputs, non-trivial = height >= 1',
+    assumptions=TRUST + ['completeness of Decode is judged by counting, using that PathToIndex is a bijection onto [0, bitmapSize) (C03, MC_BmIndex)'],
+)
+PROPS['C05'] = dict(
+    trace=TBM, mc=dict(quick=[], thorough=[]), need_kinds=['i2p'],
+    rule='a case is a height with a batch of indexes: EVERY index of every height <= 10 (thorough <= 13); for heights 5..30 the indexes 0..3, h-1..h+2, 2^k+d, 2^k+h+d, last-2^k+d, middle and last, plus batches of 300 random indexes; '
+         'IndexToPath judged against the pre-order descent Bmtree!PathOfIndex and PathToIndex(full, result) = index; distinct = distinct (height, indexes), non-trivial = height >= 1',
+    assumptions=TRUST,
+)
+PROPS['C10'] = dict(
+    trace=TBM, mc=dict(quick=[], thorough=[]), need_kinds=['pathw'],
+    rule='a case is a height with a list of nodes (bit sequences) and index pairs: ALL nodes of heights <= 6 (thorough <= 8) in pre-order with all adjacent pairs both ways and 400 random pairs; '
+         'all heights 0..32 x all lengths x prefixes {0,1,2^l-1,2^(l-1),random}; random related pairs (prefix, extension, sibling branch) on heights 1..32; '
+         'NewPath, PathLen, PathHeight, PathBits, PathMask, PathStr on every node and Go\'s < on the two words of every pair, judged against Bmtree!PathOnes and PreLess; '
+         'distinct = distinct inputs, non-trivial = height >= 1',
+    assumptions=TRUST,
+)
+PROPS['C11'] = dict(
+    trace=TBM, mc=dict(quick=[], thorough=[]), need_kinds=['fromstr32', 'pathsof'],
+    rule='fromstr32: ALL (from, w) with from in 0..8|s|+9 and w in 0..32 for strings of 0..6 bytes over boundary bytes; random strings up to 39 bytes with from near/at/beyond the end; '
+         'each event holds FromStr32, PathOf and PathStr(PathOf); pathsof: key lists with duplicates, keys equal to their predecessor and equal paths non-adjacent, with and without dedup; '
+         'judged against the MSB-first bits of the string (Strings!SBit); distinct = distinct inputs, non-trivial = non-empty string and w >= 1',
+    assumptions=TRUST,
+)
